@@ -450,12 +450,14 @@ func (wr *warcRecord) parseBlock(reader io.Reader, validation *Validation) (err 
 //	ErrWarn: all errors found will be added to the Validation.
 //	ErrFail: the first error is returned and no more validation is done.
 func (wr *warcRecord) ValidateDigest(validation *Validation) error {
-	if wr.opts.errSpec > ErrIgnore {
-		if err := wr.Block().Cache(); err != nil {
-			return err
-		}
-		wr.Block().BlockDigest()
+	// The block must be read completely, whatever the policy: the digests added below describe the whole block,
+	// and an unmarshaled block that is not cached is drained by the unmarshaler and would read as empty afterwards.
+	if err := wr.Block().Cache(); err != nil {
+		return err
+	}
+	wr.Block().BlockDigest()
 
+	if wr.opts.errSpec > ErrIgnore {
 		size := strconv.FormatInt(wr.block.Size(), 10)
 		if wr.WarcHeader().Has(ContentLength) && size != wr.headers.Get(ContentLength) {
 			switch wr.opts.errSpec {
